@@ -228,18 +228,21 @@ def jobs_for(prop, tier):
     # checks structure, counters, drops, final state and the sequential refill
     b = 3 if thorough else 2
     loom = [{"id": "loom-atomic-instant", "argv": ["all"], "bin": "loom"}]
+    # systematic product of configurations x preludes x thread programs (bound 2; per
+    # program schedule cap, reported when hit)
+    gen = sched("gen", tier, 2, 16, 20000 if thorough else 1500)
     if prop == "C02":
-        j = sched("c02", tier, b, 16) + sched("c02w", tier, b, 8) + sched("c02x", tier, b, 4) + sched("c02t", tier, b, 8) + sched("c07", tier, b, 2) + sched("c16", tier, b, 2) + loom
+        j = sched("c02", tier, b, 16) + sched("c02w", tier, b, 8) + sched("c02x", tier, b, 4) + sched("c02t", tier, b, 8) + sched("c07", tier, b, 2) + sched("c16", tier, b, 2) + loom + gen
     elif prop == "C09":
-        j = sched("c09", tier, 2 if thorough else 1, 8, 20000) + sched("c02", tier, 2, 16) + sched("c07", tier, 2, 2)
+        j = sched("c09", tier, 2 if thorough else 1, 8, 20000) + sched("c02", tier, 2, 16) + sched("c07", tier, 2, 2) + gen
     elif prop == "C07":
-        j = j + sched("c07", tier, b, 4) + sched("c02x", tier, b, 4) + loom
+        j = j + sched("c07", tier, b, 4) + sched("c02x", tier, b, 4) + loom + gen
     elif prop == "C16":
         j = j + sched("c16", tier, b, 3)
     elif prop == "C04":
         j = j + sched("c04", tier, 2, 2) + [{"id": "overshoot", "argv": ["overshoot"]}]
     elif prop in ("C03", "C08", "C10", "C11"):
-        j = j + sched("c02", tier, 2, 16) + sched("c02w", tier, 2, 8) + sched("c02x", tier, 2, 4)
+        j = j + sched("c02", tier, 2, 16) + sched("c02w", tier, 2, 8) + sched("c02x", tier, 2, 4) + gen
     elif prop == "C06":
         j = j + sched("c02t", tier, 2, 8)
     return j
